@@ -498,3 +498,93 @@ def gen_role(f):
     if f.raw["kind"] != "Closure":
         return "response"
     return f.id.split("gen_openapi")[-1].lstrip(":") or "gen_openapi"
+
+
+# --------------------------------------------------------------------------- operation census on a value chain
+class ChainOps:
+    """Which operations lie between the schemars source and an OpenAPI sink operand: callees,
+    arithmetic / comparison operators on the data slice, and comparisons that *control* a definition
+    on the slice.  Closures on the slice and crate-local helper functions are entered (their body
+    from the return value, parameters not resolved: the actual arguments are already on the caller's
+    slice); the sink function's own parameters are followed to its callers."""
+
+    def __init__(self, flow, no_descend=()):
+        self.flow = flow
+        self.facts = flow.facts
+        self.no_descend = set(no_descend)
+        self._fn = {}
+
+    def fn_ops(self, g, depth=0):
+        if g.id in self._fn:
+            return self._fn[g.id]
+        self._fn[g.id] = set()          # cycle guard
+        r = self._ops(g, {"l": 0, "p": []}, set(), depth + 1, resolve_params=False)
+        self._fn[g.id] = r
+        return r
+
+    def ops(self, fn, op):
+        return self._ops(fn, op, set(), 0, resolve_params=True)
+
+    def _ops(self, fn, op, seen, depth, resolve_params):
+        key = (fn.id, json.dumps(op, sort_keys=True))
+        out = set()
+        if key in seen or depth > 10:
+            return out
+        seen.add(key)
+        sl = fn.slice(op)
+        for a in sl.atoms:
+            if a[0] in ("binop", "unop"):
+                out.add((a[0], a[1]))
+            elif a[0] == "agg":
+                g = self.facts.F.get(a[1]) if isinstance(a[1], str) else None
+                if g is not None and g.raw["kind"] == "Closure":
+                    out |= self.fn_ops(g, depth)
+            elif a[0] == "param" and resolve_params:
+                out |= self._param_ops(fn, a[1], a[2], seen, depth)
+        for c, bb, t in sl.callees:
+            out.add(("call", c))
+            g = self.facts.F.get(c)
+            if g is not None and g.raw["id"] not in self.no_descend and g.raw["kind"] != "Closure":
+                out |= self.fn_ops(g, depth)
+        # comparisons that decide whether a definition on the slice executes
+        for bb in self.flow.def_blocks(fn, sl):
+            for sb in self.flow._controllers(fn, bb):
+                d = fn.slice(fn.blocks[sb]["term"]["discr"])
+                for a in d.atoms:
+                    if a[0] in ("binop", "unop"):
+                        out.add(("ctrl-" + a[0], a[1]))
+                for c, cbb, t in d.callees:
+                    if re.search(r"cmp::(PartialOrd|PartialEq|Ord)::|::(is_empty|contains|starts_with|ends_with|is_some_and|is_none_or)$", c):
+                        out.add(("ctrl-call", c))
+        return out
+
+    def _param_ops(self, fn, i, proj, seen, depth):
+        out = set()
+        fl = self.flow
+        if fl.is_closure(fn):
+            site = fl.closure_site(fn)
+            if site is None:
+                return out
+            p, bb, st = site
+            if i == 1:
+                k = None
+                for e in proj:
+                    if e.startswith("f"):
+                        k = int(e[1:].split(":")[0])
+                        break
+                ops = st["rv"]["ops"]
+                for o in ([ops[k]] if (k is not None and k < len(ops)) else ops):
+                    out |= self._ops(p, o, seen, depth + 1, True)
+            else:
+                for cbb, t, k in fl.closure_receivers(p, st):
+                    out.add(("call", t.get("callee") or "<indirect>"))
+                    for j, a in enumerate(t["args"]):
+                        if j != k:
+                            out |= self._ops(p, a, seen, depth + 1, True)
+        else:
+            if fn.raw["id"] in fl.entries:
+                return out
+            for g, bb, t in fl.callers(fn):
+                if i - 1 < len(t["args"]):
+                    out |= self._ops(g, t["args"][i - 1], seen, depth + 1, True)
+        return out
